@@ -13,7 +13,9 @@ CONFIG = dict(
           "non-stdlib / builtin global through every global-resolving and call-making opcode with several "
           "fates + random assembler programs + the repository's three crash inputs, and byte-level "
           "corruptions (truncation, bit flips, opcode substitution, length inflation, splice, garbage) of "
-          "all of them; each input goes through every analysis entry point (parse, stacked parse, decompile, "
+          "all of them; plus argument-less instantiation through every call opcode, stdlib submodules whose "
+          "parent package is not imported yet, computed operands (16 constant-call builders x 11 uses) and "
+          "names that are str.format templates reaching a canary module; each input goes through every analysis entry point (parse, stacked parse, decompile, "
           "unparse, trace, safety check, likely-safe query, import/call summaries, CLI decompile / --trace / "
           "--check-safety; thorough adds format identification on a zip wrapping the input) while an audit "
           "hook installed before fickling was imported, canary modules, a logging meta-path finder, a "
